@@ -7,7 +7,9 @@ import ScrutModel.Model.LineParser
 * `extractCodeBlockStart` – the fence recogniser.  The Rust works with **byte offsets** obtained
   from `char_indices` and slices the line with them; the model does the same: `slice` fails
   (`Err.crash`) unless both offsets are character boundaries inside the line, exactly like
-  `&line[a..b]`;
+  `&line[a..b]`.  A line whose rest behind the leading backticks contains another backtick in
+  front of the first `{` (`line[index..].split('{').next()` – the language part; the inline
+  configuration may hold backticks) is not a fence line: it starts with an inline code span;
 * `run` – `MarkdownIterator::next` iterated to the end of the document.  The `for line in
   self.document_lines.by_ref()` loops inside `next` are the modes `front` / `verb` / `test` of one
   structural recursion over the remaining lines (an inner loop that runs out of lines emits its
@@ -19,7 +21,8 @@ import ScrutModel.Model.LineParser
 Parameters (`Env`): the Unicode class `\p{L}` (`isLetter`), the expectation grammar (`expOk`),
 and serde_yaml (`docCfgOk`, `testCfgOk`: does the text deserialize?).  Configuration is opaque:
 a test carries the raw text between the braces of its fence line (`none` = no inline
-configuration), the result carries the raw front-matter texts.
+configuration), the result carries the raw front-matter texts (the lines joined by `\n`; what
+serde_yaml is given is that text plus a final `\n`).
 White space is `char::is_whitespace` = `\s` of the regex crate = Unicode `White_Space`, written
 out in `isWhite`.
 -/
@@ -143,7 +146,16 @@ def scanFence (line : Line) : List Char → Nat → Option Nat → Except Err (O
     if ch ≠ '`' then
       -- a code fence consists of at least three backticks
       if index < 3 then .ok none
-      else scanFence line rest (index + ch.utf8Size) (some index)
+      else
+        -- the info string of a fence holds no backtick in front of the inline configuration:
+        -- `line[index..].split('{').next().is_some_and(|language| language.contains('`'))` (the
+        -- slice starts at the byte offset of `ch`; `split('{').next()` is always `Some`: the text
+        -- in front of the first `{`, all of it if there is none)
+        match sliceFrom line index with
+        | .error e => .error e
+        | .ok tail =>
+          if (tail.takeWhile (· ≠ '{')).contains '`' then .ok none
+          else scanFence line rest (index + ch.utf8Size) (some index)
     else scanFence line rest (index + ch.utf8Size) none
 
 /-- `extract_code_block_start(line)`: `(backticks, language, config)` -/
@@ -311,8 +323,10 @@ def addAll (expOk : Line → Bool) : LineParser.State Cfg → Numbered → Excep
 /-- one iteration of `for token in iterator` -/
 def stepTok (env : Env) (st : PState) : Tok → Except Err PState
   | .docConfig lines =>
+    -- `serde_yaml::from_str(&format!("{}\n", config_lines.join_newline()))`: the last line has its
+    -- line ending as well (a block scalar that is the last entry keeps its final line break)
     let text := joinNumbered lines
-    if env.docCfgOk text then .ok { st with docConfigs := st.docConfigs ++ [text] }
+    if env.docCfgOk (text ++ ['\n']) then .ok { st with docConfigs := st.docConfigs ++ [text] }
     else .error .docConfigYaml
   | .line _ l =>
     match extractTitle env.isLetter l with
